@@ -34,38 +34,39 @@ Proof.
 Qed.
 
 (* ---- ggT / kgV ---- *)
-Lemma ggt_loop_spec fuel : forall a b, 0 <= a -> 0 <= b -> (Z.to_nat b < fuel)%nat -> ggt_loop fuel a b = Ok (Z.gcd a b).
+Lemma gcd_rem a b : b <> 0 -> Z.gcd b (Z.rem a b) = Z.gcd a b.
 Proof.
-  induction fuel as [|f IH]; intros a b Ha Hb Hf; [lia|].
-  cbn [ggt_loop]. destruct (b =? 0) eqn:E.
-  - apply Z.eqb_eq in E. subst b. rewrite Z.gcd_0_r. f_equal. lia.
-  - apply Z.eqb_neq in E.
-    assert (Hr : Z.rem a b = a mod b) by (apply Z.rem_mod_nonneg; lia).
-    pose proof (Z.mod_pos_bound a b ltac:(lia)) as Hm.
-    rewrite IH by lia. f_equal. rewrite Hr.
-    rewrite (Z.gcd_comm b (a mod b)). rewrite Z.gcd_mod by lia. apply Z.gcd_comm.
+  intros Hb. pose proof (Z.quot_rem' a b) as H.
+  replace (Z.rem a b) with (a + (- (Z.quot a b)) * b) by lia.
+  rewrite Z.gcd_add_mult_diag_r. apply Z.gcd_comm.
 Qed.
-Lemma ggt_spec a b : 0 <= a -> 0 <= b -> Groesster_Gemeinsamer_Teiler a b = Ok (Z.gcd a b).
-Proof. intros Ha Hb. unfold Groesster_Gemeinsamer_Teiler. apply ggt_loop_spec; lia. Qed.
-Lemma ggt_refuted : exists a b r, Groesster_Gemeinsamer_Teiler a b = Ok r /\ r <> Z.gcd a b.
-Proof. exists 4, (-6), (-2). split; [vm_compute; reflexivity|vm_compute; discriminate]. Qed.
-
-Lemma kgv_partial a b : 0 < a -> 0 < b -> in_i64 (a * b) -> Kleinster_Gemeinsamer_Teiler a b = Ok (Z.lcm a b).
+Lemma ggt_loop_spec fuel : forall a b, (Z.to_nat (Z.abs b) < fuel)%nat -> ggt_loop fuel a b = Ok (Z.gcd a b).
 Proof.
-  intros Ha Hb Hr. unfold Kleinster_Gemeinsamer_Teiler. rewrite ggt_spec by lia. cbn [bind].
+  induction fuel as [|f IH]; intros a b Hf; [lia|].
+  cbn [ggt_loop]. destruct (b =? 0) eqn:E.
+  - apply Z.eqb_eq in E. subst b. now rewrite Z.gcd_0_r.
+  - apply Z.eqb_neq in E. pose proof (Z.rem_bound_abs a b E) as Hr.
+    rewrite IH by lia. f_equal. now apply gcd_rem.
+Qed.
+(* the greatest common divisor for ALL arguments (never negative) *)
+Lemma ggt_spec a b : Groesster_Gemeinsamer_Teiler a b = Ok (Z.gcd a b).
+Proof. unfold Groesster_Gemeinsamer_Teiler. apply ggt_loop_spec. lia. Qed.
+
+Lemma kgv_spec a b : (a <> 0 \/ b <> 0) -> in_i64 (a * b) -> Kleinster_Gemeinsamer_Teiler a b = Ok (Z.lcm a b).
+Proof.
+  intros Hne Hr. unfold Kleinster_Gemeinsamer_Teiler. rewrite ggt_spec. cbn [bind].
   pose proof (Z.gcd_nonneg a b) as Hg0.
-  assert (Hg : Z.gcd a b <> 0) by (intros H0; apply Z.gcd_eq_0_l in H0; lia).
+  assert (Hg : Z.gcd a b <> 0).
+  { intros H0. destruct Hne as [Ha|Hb]; [apply Z.gcd_eq_0_l in H0|apply Z.gcd_eq_0_r in H0]; contradiction. }
   replace (Z.gcd a b =? 0) with false by (symmetry; apply Z.eqb_neq; exact Hg).
-  rewrite wrap64_id by assumption. rewrite Z.abs_eq by lia.
+  rewrite wrap64_id by assumption.
   rewrite Z.quot_div_nonneg by lia.
   unfold Z.lcm. f_equal.
-  pose proof (Z.gcd_divide_r a b) as Hd.
-  rewrite Z.divide_div_mul_exact by assumption.
-  rewrite Z.abs_eq; [reflexivity|].
-  apply Z.mul_nonneg_nonneg; [lia|]. apply Z.div_pos; lia.
+  destruct (Z.gcd_divide_r a b) as [k Hk].
+  replace (b / Z.gcd a b) with k by (rewrite Hk at 1; now rewrite Z.div_mul).
+  replace (a * b) with ((a * k) * Z.gcd a b) by (rewrite Hk at 2; ring).
+  rewrite Z.abs_mul, (Z.abs_eq (Z.gcd a b)) by lia. now rewrite Z.div_mul.
 Qed.
-Lemma kgv_refuted : exists a b r, Kleinster_Gemeinsamer_Teiler a b = Ok r /\ r <> Z.lcm a b.
-Proof. exists 4, (-6), (-12). split; [vm_compute; reflexivity|vm_compute; discriminate]. Qed.
 
 Lemma ist_teilbar_spec a b : b <> 0 -> exists r, Ist_Teilbar a b = Ok r /\ (r = true <-> (b | a)).
 Proof.
@@ -112,21 +113,41 @@ Proof. unfold Teilerzerlegung. now rewrite teiler_loop_inv. Qed.
 (* ---- Floor / Ceil / Trunc on n/d ---- *)
 Lemma trunc_spec n d : Trunc n d = Z.quot n d * d.
 Proof. reflexivity. Qed.
-Lemma floor_partial n d : 0 < d -> 0 <= n -> Floor n d = n / d * d.
-Proof. intros Hd Hn. unfold Floor, trunc_q. rewrite Z.quot_div_nonneg by lia. lia. Qed.
-Lemma floor_integers n d : 0 < d -> (d | n) -> Floor n d = n.
+(* rounding toward minus infinity: the largest multiple of d (= integer) not above n *)
+Lemma floor_spec n d : 0 < d -> Floor n d = n / d * d.
 Proof.
-  intros Hd [k ->]. unfold Floor, trunc_q. rewrite Z.quot_mul by lia. lia.
+  intros Hd. unfold Floor, trunc_q. cbv zeta.
+  pose proof (Z.quot_rem' n d) as Hq.
+  assert (Hr : (0 <= n -> 0 <= Z.rem n d < d) /\ (n <= 0 -> - d < Z.rem n d <= 0)).
+  { split; intros Hn; [apply Z.rem_bound_pos; lia|]. pose proof (Z.rem_bound_pos (- n) d ltac:(lia) Hd) as Hb.
+    rewrite Z.rem_opp_l' in Hb. lia. }
+  destruct Hr as [Hp Hn].
+  destruct (Z.quot n d * d >? n) eqn:E; rewrite Z.gtb_ltb in E; [apply Z.ltb_lt in E|apply Z.ltb_ge in E].
+  - replace (Z.quot n d * d - 1 * d) with ((Z.quot n d - 1) * d) by ring. f_equal.
+    apply (Z.div_unique n d (Z.quot n d - 1) (Z.rem n d + d)); [left|]; destruct (Z_le_gt_dec 0 n); try lia.
+  - f_equal. apply (Z.div_unique n d (Z.quot n d) (Z.rem n d)); [left|lia]. destruct (Z_le_gt_dec 0 n); lia.
 Qed.
-Lemma floor_refuted : exists n d, 0 < d /\ Floor n d <> n / d * d.
-Proof. exists (-1), 4. split; [lia|]. vm_compute. discriminate. Qed.
-Lemma ceil_partial n d : 0 < d -> 0 < n -> n mod d <> 0 -> Ceil n d = (n / d + 1) * d.
-Proof. intros Hd Hn Hm. unfold Ceil, trunc_q. rewrite Z.quot_div_nonneg by lia. lia. Qed.
-(* the ceiling of an integer is the integer itself; the code adds one *)
-Lemma ceil_refuted : exists n d, 0 < d /\ (d | n) /\ Ceil n d <> n.
-Proof. exists 4, 4. split; [lia|]. split; [exists 1; lia|]. vm_compute. discriminate. Qed.
-Lemma ceil_is_trunc_plus_one n d : Ceil n d = trunc_q n d + d.
-Proof. unfold Ceil. lia. Qed.
+(* rounding toward plus infinity: the smallest multiple of d not below n *)
+Lemma ceil_spec n d : 0 < d -> Ceil n d = - ((- n) / d) * d.
+Proof.
+  intros Hd. unfold Ceil, trunc_q. cbv zeta.
+  pose proof (Z.quot_rem' n d) as Hq.
+  assert (Hr : (0 <= n -> 0 <= Z.rem n d < d) /\ (n <= 0 -> - d < Z.rem n d <= 0)).
+  { split; intros Hn; [apply Z.rem_bound_pos; lia|]. pose proof (Z.rem_bound_pos (- n) d ltac:(lia) Hd) as Hb.
+    rewrite Z.rem_opp_l' in Hb. lia. }
+  destruct Hr as [Hp Hn].
+  destruct (Z.quot n d * d <? n) eqn:E; [apply Z.ltb_lt in E|apply Z.ltb_ge in E].
+  - replace (Z.quot n d * d + 1 * d) with (- (- (Z.quot n d) - 1) * d) by ring. f_equal. f_equal.
+    apply (Z.div_unique (- n) d (- Z.quot n d - 1) (d - Z.rem n d)); [left|]; destruct (Z_le_gt_dec 0 n); try lia.
+  - replace (Z.quot n d * d) with (- (- Z.quot n d) * d) by ring. f_equal. f_equal.
+    apply (Z.div_unique (- n) d (- Z.quot n d) (- Z.rem n d)); [left|lia]. destruct (Z_le_gt_dec 0 n); lia.
+Qed.
+Lemma ceil_integers n d : 0 < d -> (d | n) -> Ceil n d = n.
+Proof.
+  intros Hd [k ->]. rewrite ceil_spec by assumption. replace (- (k * d)) with ((- k) * d) by ring. rewrite Z.div_mul by lia. ring.
+Qed.
+Lemma floor_integers n d : 0 < d -> (d | n) -> Floor n d = n.
+Proof. intros Hd [k ->]. rewrite floor_spec by assumption. now rewrite Z.div_mul by lia. Qed.
 
 (* ---- Statistik ---- *)
 Lemma hoechste_loop_ge l : forall m, m <= hoechste_loop l m /\ (forall x, In x l -> x <= hoechste_loop l m).
@@ -185,15 +206,11 @@ Proof.
   - rewrite IH. destruct (cond z); [rewrite len_cons|]; lia.
 Qed.
 Definition count (cond : Z -> bool) (l : list Z) : Z := len (filter cond l).
-(* "Summe der relativen Häufigkeiten aller Zahlen größer als, oder x": the code counts the numbers <= x *)
-Lemma mindestens_partial x l : Mindestens_Liste x l = (count (fun z => z <=? x) l, len l).
+(* "Summe der relativen Häufigkeiten aller Zahlen größer als, oder x" / "kleiner als, oder x" *)
+Lemma mindestens_spec x l : Mindestens_Liste x l = (count (fun z => z >=? x) l, len l).
 Proof. unfold Mindestens_Liste. now rewrite count_loop_spec. Qed.
-Lemma mindestens_refuted : exists x l, l <> [] /\ fst (Mindestens_Liste x l) <> count (fun z => z >=? x) l.
-Proof. exists 1, [0]. split; [discriminate|]. vm_compute. discriminate. Qed.
-Lemma hoechstens_partial x l : Hoechstens_Liste x l = (count (fun z => z >=? x) l, len l).
+Lemma hoechstens_spec x l : Hoechstens_Liste x l = (count (fun z => z <=? x) l, len l).
 Proof. unfold Hoechstens_Liste. now rewrite count_loop_spec. Qed.
-Lemma hoechstens_refuted : exists x l, l <> [] /\ fst (Hoechstens_Liste x l) <> count (fun z => z <=? x) l.
-Proof. exists 1, [0]. split; [discriminate|]. vm_compute. discriminate. Qed.
 Lemma zwischen_spec x y l : Zwischen_Liste x y l = (count (fun z => (z >=? x) && (z <=? y)) l, len l).
 Proof. unfold Zwischen_Liste. now rewrite count_loop_spec. Qed.
 Lemma absolute_haeufigkeit_spec l x : Absolute_Haeufigkeit l x = Z.of_nat (count_occ Z.eq_dec l x).
